@@ -122,12 +122,13 @@ type SpecDB struct {
 	LockInvs    map[string][]SpecClause
 	Directives  map[string][]string // pkgpath -> raw directive lines (ledger etc.)
 	Immutable   map[string]bool     // package-level variables that never change
+	ImmutableFields map[string]bool // pkgpath.Type.field
 	Imports     map[string]map[string]string
 	Errors      []string
 }
 
 func NewSpecDB() *SpecDB {
-	return &SpecDB{Funcs: map[string]*FuncSpec{}, GhostFields: map[string][]*GhostField{}, SpecFns: map[string]*SpecFn{}, Preds: map[string]*Pred{}, PkgModes: map[string]string{}, LockInvs: map[string][]SpecClause{}, Directives: map[string][]string{}, Immutable: map[string]bool{}, Imports: map[string]map[string]string{}}
+	return &SpecDB{Funcs: map[string]*FuncSpec{}, GhostFields: map[string][]*GhostField{}, SpecFns: map[string]*SpecFn{}, Preds: map[string]*Pred{}, PkgModes: map[string]string{}, LockInvs: map[string][]SpecClause{}, Directives: map[string][]string{}, Immutable: map[string]bool{}, ImmutableFields: map[string]bool{}, Imports: map[string]map[string]string{}}
 }
 
 func parseGoFile(fset *token.FileSet, filename string, src []byte) (*ast.File, error) {
@@ -352,6 +353,9 @@ func (db *SpecDB) parseBlock(body, pkgPath, file string, line0 int, extern bool)
 			}
 			k := curPkg + "." + strings.TrimSpace(ls)
 			db.LockInvs[k] = append(db.LockInvs[k], SpecClause{Expr: b, Src: strings.TrimSpace(bs), Where: where})
+		case topLevel && word == "immutable" && strings.HasPrefix(rest, "field "):
+			// immutable field Type.f : written only by constructors (checked structurally)
+			db.ImmutableFields[curPkg+"."+strings.TrimSpace(strings.TrimPrefix(rest, "field "))] = true
 		case topLevel && word == "immutable":
 			db.Immutable[strings.Trim(rest, "\" ")] = true
 		case topLevel && word == "import":
